@@ -27,7 +27,7 @@ vars == <<i, st>>
 
 NoImage == [prog |-> "-", argv |-> << >>, envp |-> << >>, cwd |-> "-", io |-> <<"-", "-", "-">>,
             uid |-> -2, gid |-> -2, pg |-> "-"]
-NoFacts == [dio |-> << >>, raw |-> << >>, pipes |-> << >>, pgrp |-> 0, pfds |-> << >>, pos |-> << >>, nprog |-> 0]
+NoFacts == [dio |-> << >>, raw |-> << >>, pipes |-> << >>, pgrp |-> 0, pfds |-> << >>, before |-> << >>, pos |-> << >>, nprog |-> 0]
 NoCfg == [bin |-> "-", envAlt |-> << >>, planned |-> << >>, feed |-> "", flow |-> << >>, mayHang |-> FALSE]
 Fresh(run, c, facts) ==
     [run |-> run, c |-> [c EXCEPT !.envAlt = Range(@), !.planned = Range(@)], facts |-> facts,
@@ -184,6 +184,18 @@ NoStrayPipeEnds(s) ==
         /\ (Len(s.facts.pfds) > 0 => CountLink(s.facts.pfds, L) = 1)
         /\ (Len(s.cfds) > 0 => CountLink(s.cfds, L) = 1)
 
+\* "the child runs exactly what was configured" for its whole descriptor table: besides 0, 1, 2 the
+\* exec'ed program may only find descriptors that the caller itself had open WITHOUT close-on-exec before
+\* the spawn (same number, same object): inheriting those is what exec does; anything spawn created on
+\* the way (its pipes, /dev/null, the sync pipe) must not show up
+NoForeignFds(s) ==
+    \A k \in DOMAIN s.cfds :
+        \/ s.cfds[k].fd <= 2
+        \/ \E j \in DOMAIN s.facts.before :
+              /\ s.facts.before[j].fd = s.cfds[k].fd
+              /\ s.facts.before[j].link = s.cfds[k].link
+              /\ s.facts.before[j].cloexec = 0
+
 Verdict(s) ==
     LET o == ObsOf(s)
         timedOut == \E k \in DOMAIN s.anomalies : s.anomalies[k] = "TimedOut"
@@ -193,6 +205,7 @@ Verdict(s) ==
               \cup (IF s.attempt = {} THEN {} ELSE {"AttemptIsConfigured"})
               \cup (IF Unplanned(s) = {} THEN {} ELSE {"OnlyPlannedStepsFail"})
               \cup (IF NoStrayPipeEnds(s) THEN {} ELSE {"NoStrayPipeEnds"})
+              \cup (IF NoForeignFds(s) THEN {} ELSE {"NoForeignFds"})
               \cup (IF admitted \/ timedOut \/ DataFlowOk(s) THEN {} ELSE {"DataFlow"})
         v == IF admitted THEN v0 \ {"OkMeansConfigured"} ELSE v0
         an == IF admitted THEN SelectSeq(s.anomalies, LAMBDA a : a \notin {"TimedOut", "NoDump"}) ELSE s.anomalies
